@@ -126,12 +126,15 @@ func runOnce(f *Factory, p *Program, names []string, choose func(k int, enabled 
 	h.Deadlock = sr.Deadlock
 	h.Sched = sr.Steps
 
-	idx := map[[2]int]int{}
+	idx := map[[2]int]int{}      // last history call of a program call
+	idxFirst := map[[2]int]int{} // first history call of a program call
 
 	seenTmp := map[string]bool{}
 	tmpClock := map[string]int{}
 
 	for g := range p.Procs {
+		pos := 0
+
 		for i, c := range p.Procs[g] {
 			normCall(&c)
 			r := recs[g][i]
@@ -154,7 +157,19 @@ func runOnce(f *Factory, p *Program, names []string, choose func(k int, enabled 
 				r.res.Names = []string{}
 			}
 
-			h.Calls = append(h.Calls, HistCall{G: g + 1, I: i + 1, Call: c, Res: r.res})
+			pos++
+			idxFirst[[2]int{g, i}] = len(h.Calls) + 1
+
+			if c.Op == "writefile" && r.res.Err == "ok" {
+				// WriteFile is open(O_WRONLY|O_CREATE|O_TRUNC) + write + close, as in package os: other calls may
+				// observe the file between the two steps, so the history shows them as two calls.
+				oc := c
+				oc.Op, oc.Flag, oc.Data = "openclose", []string{"WRONLY", "CREATE", "TRUNC"}, []int{}
+				h.Calls = append(h.Calls, HistCall{G: g + 1, I: pos, Call: oc, Res: NewRes("ok")})
+				pos++
+			}
+
+			h.Calls = append(h.Calls, HistCall{G: g + 1, I: pos, Call: c, Res: r.res})
 			idx[[2]int{g, i}] = len(h.Calls)
 		}
 	}
@@ -167,7 +182,7 @@ func runOnce(f *Factory, p *Program, names []string, choose func(k int, enabled 
 				for i2 := range p.Procs[g2] {
 					a, b := recs[g1][i1], recs[g2][i2]
 					if g1 != g2 && a.end != 0 && b.start != 0 && a.end < b.start {
-						h.Rt = append(h.Rt, []int{idx[[2]int{g1, i1}], idx[[2]int{g2, i2}]})
+						h.Rt = append(h.Rt, []int{idx[[2]int{g1, i1}], idxFirst[[2]int{g2, i2}]})
 					}
 				}
 			}
@@ -186,8 +201,17 @@ func runOnce(f *Factory, p *Program, names []string, choose func(k int, enabled 
 		// in the order the calls returned, as the sequential specification numbers them
 		sort.Slice(tmps, func(a, b int) bool { return tmpClock[tmps[a]] < tmpClock[tmps[b]] })
 
-		for k, n := range tmps {
-			all.Tmp[n] = fmt.Sprintf("~%d", k+1)
+		for _, n := range tmps {
+			all.Tmp[n] = "~"
+		}
+
+		// a listing made by one goroutine may show the temporary names created by another
+		for k := range h.Calls {
+			for j, n := range h.Calls[k].Res.Names {
+				if seenTmp[n] || strings.HasPrefix(n, "~") {
+					h.Calls[k].Res.Names[j] = "~"
+				}
+			}
 		}
 
 		snap := all.Project(names)
